@@ -363,3 +363,30 @@ Definition heap_ok (h : heap) (scores : list Z) : Prop :=
   h_size h <= length (h_val h) /\
   (forall i, i < h_size h -> nthn (h_val h) i < length (h_pos h) /\ nthn (h_pos h) (nthn (h_val h) i) = i) /\
   (forall i, 0 < i -> i < h_size h -> (score_at h scores (Z.to_nat (parent i)) <= score_at h scores i)%Z).
+
+(** Executable form of [heap_ok], and compute_core instrumented to evaluate it before every pop_min
+    (the preservation of the invariant by the four heap operations is not proved; the harness evaluates
+    this check on every case it runs). *)
+Definition heap_ok_b (h : heap) (scores : list Z) : bool :=
+  (h_size h <=? length (h_val h)) &&
+  forallb (fun i => (nthn (h_val h) i <? length (h_pos h)) && (nthn (h_pos h) (nthn (h_val h) i) =? i))
+          (seq 0 (h_size h)) &&
+  forallb (fun i => (score_at h scores (Z.to_nat (parent i)) <=? score_at h scores i)%Z)
+          (seq 1 (h_size h - 1)).
+
+Fixpoint core_loop_inv (fuel : nat) (g : graph) (degrees : list Z) (mh : heap) : bool :=
+  if heap_empty mh then true
+  else match fuel with
+       | O => false
+       | S f =>
+           heap_ok_b mh degrees &&
+           (let (min_node, mh1) := pop_min mh degrees in
+            let (degrees', mh2) := core_inner g min_node (degrees, mh1) in
+            core_loop_inv f g degrees' mh2)
+       end.
+
+Definition core_heap_inv (g : graph) : bool :=
+  let n := length g in
+  let degrees := map (fun r => Z.of_nat (length r)) g in
+  let mh := fold_left (fun mh i => insert_key mh i degrees) (seq 0 n) (heap_init n) in
+  core_loop_inv n g degrees mh.
